@@ -88,10 +88,11 @@ theorem C15_suppress (child : Option ChildFn) (ctx : Ctx) (l : PreLine) (block :
 
 theorem C15_options_reach_children (ctx : Ctx) (pos : Pos) (f : Option Path) : (ctx.child pos f).opts = ctx.opts ∧ (ctx.child pos f).fs = ctx.fs := ⟨rfl, rfl⟩
 
-theorem C15_entry_points (o : Opts) (fs : FS) (cfgs : List (Path × ProjCfg)) (file : Path) (text : Str) (h : fs.read file = some text) :
+theorem C15_entry_points (o : Opts) (fs : FS) (cfgs : List (Path × ProjCfg)) (file : Path) (text : Str) (h : fs.read file = some text)
+    (hlim : (calculateOptions o ((cfgs.find? (·.1 == parentDir file)).map (·.2))).1.stackLimit ≠ 0) :
     (compileFile o fs cfgs file).1 =
       compile (calculateOptions o ((cfgs.find? (·.1 == parentDir file)).map (·.2))).1 fs (some file) (.text text) := by
-  simp [compileFile, h]
+  simp [compileFile, h, hlim]
 
 open Duckling.Spec in
 /-- **comments off ⇒ no REM line**, for every program without IGNORE, any depth, context (with comments off) and state -/
